@@ -1,6 +1,8 @@
 package main
 
 import (
+	"github.com/olive-io/bpmn/v2/pkg/data"
+	bpmn "github.com/olive-io/bpmn/v2"
 	"fmt"
 	"strings"
 	"sync"
@@ -215,5 +217,71 @@ func runC04(env *Env) {
 	}
 	env.WriteCases(rep, "", "Corr.C04corr", "list nat * nat * nat * list nat", items, "c04_mismatches")
 	rep.Exhaustive = true
+	// ONE decision per token: the variables change right after the gateway's probe (a locator that flips the
+	// variable after the conditions have been read once) — the token still leaves on the flow that was chosen
+	for _, nFlows := range []int{1, 2, 3} {
+		if rep.Saturated() {
+			break
+		}
+		cs := fmt.Sprintf("%d conditional flows + default; the chosen condition turns false right after the probe", nFlows)
+		env.Current(cs)
+		p := &Prog{}
+		p.Node("start", "start")
+		sx := p.Node("xor", "S")
+		p.Flow("start", "S", "")
+		vars := map[string]any{}
+		for j := 0; j < nFlows; j++ {
+			b := fmt.Sprintf("B%d", j)
+			p.Node("task", b)
+			p.Flow("S", b, fmt.Sprintf("c%d", j))
+			p.Node("end", "e"+b)
+			p.Flow(b, "e"+b, "")
+			vars[fmt.Sprintf("c%d", j)] = j == nFlows-1 // only the last condition holds
+		}
+		p.Node("task", "D")
+		p.Node("end", "eD")
+		sx.Default = p.Flow("S", "D", "").ID
+		p.Flow("D", "eD", "")
+		defs, err := ParseDefs(p.XML(""))
+		must(err)
+		base := data.NewFlowDataLocator()
+		for k, v := range vars {
+			base.SetVariable(k, v)
+		}
+		fl := &flipLocator{IFlowDataLocator: base, after: nFlows, key: fmt.Sprintf("c%d", nFlows-1)}
+		in, err := StartInst(defs, InstOpt{Opts: []bpmn.Option{bpmn.WithLocator(fl)}})
+		must(err)
+		rep.Evaluations++
+		rep.Nontrivial++
+		rep.Count("decision_once")
+		want := fmt.Sprintf("B%d", nFlows-1)
+		in.WaitUntil(2*time.Second, func(l []Ev) bool { return countEv(l, "task", "*") > 0 || countEv(l, "error", "*") > 0 })
+		time.Sleep(5 * time.Millisecond)
+		l := in.Log()
+		if countEv(l, "task", want) != 1 || countEv(l, "task", "*") != 1 || countEv(l, "error", "*") != 0 {
+			rep.Violate("C04-one-decision", cs, fmt.Sprintf("expected exactly one request, of %s; log: %s", want, logString(l)))
+		}
+		in.Close()
+	}
 	env.WriteReport(rep)
+}
+
+// flipLocator hands out the variables unchanged `after` times, then turns `key` to false for good
+type flipLocator struct {
+	data.IFlowDataLocator
+	mu    sync.Mutex
+	reads int
+	after int
+	key   string
+}
+
+func (f *flipLocator) CloneVariables() map[string]data.IItem {
+	f.mu.Lock()
+	f.reads++
+	flip := f.reads == f.after+1
+	f.mu.Unlock()
+	if flip {
+		f.IFlowDataLocator.SetVariable(f.key, false)
+	}
+	return f.IFlowDataLocator.CloneVariables()
 }
